@@ -156,6 +156,7 @@ func runStreamProp(c *Ctx, id string) {
 	}
 	if id == "C12" {
 		runReopenRetriesUnderRebalance(c)
+		runC12Retry(c)
 	}
 }
 
